@@ -1304,6 +1304,7 @@ Fixpoint good_op (c : cache) (o : cop) {struct o} : Prop :=
   | OAdd t => t <> "" /\ assoc t (c_targets c) = None
   | ORemove _ t => t <> ""
   | OPair a b => good_op c a /\ good_op (cstep c a) b
+  | OUpdT _ tgt n => good_notif tgt n     (* a handle write whose prefix names the handle's target *)
   | _ => True
   end.
 
@@ -1429,8 +1430,13 @@ Theorem cache_step_inv c m o c' r mf :
   CInv c' (fold_left feed_apply (cfeed mf) m).
 Proof.
   revert c m c' r mf.
-  induction o as [now n|now tgt|now tgt|tgt|now tgt|now tgt|now tgt msg|now| |a IHa b IHb];
+  induction o as [now n|now tgt|now tgt|tgt|now tgt|now tgt|now tgt msg|now|now tgt n| |a IHa b IHb];
     intros c m c' r mf Hc Hg; cbn [mstep good_op] in *.
+  9:{ (* a write through the Target handle *)
+      destruct (assoc tgt (c_targets c)) as [t|] eqn:Ha.
+      2:{ intros E _; inversion E; subst. exact Hc. }
+      destruct (target_gnmi_update t now n) as [[t' gs] g] eqn:E1. intros E Hnp; inversion E; subst; clear E.
+      apply (on_target_inv c m tgt t now n t' gs g Hc Ha Hg E1). intros w ->. apply Hnp. reflexivity. }
   10:{ (* a pair is its two calls in sequence *)
        destruct Hg as [Hga Hgb]. unfold cstep in Hgb.
        destruct (mstep c a) as [[c1 r1] f1] eqn:Ea. destruct (mstep c1 b) as [[c2 r2] f2] eqn:Eb.
@@ -1998,3 +2004,20 @@ Proof.
       try apply (in_units_multi n [u] _ m);
       try apply (in_units_multi n (u :: u2 :: us) _ m).
 Qed.
+
+(** a write through the exported Target handle whose prefix names NO target
+    (KF-C03-5): the leaf is stored in the handle's target -- its first index
+    element dropped, being taken for the target name -- but announced to the
+    feed without a target, so the replay does not hold it for that target.
+    [good_op] excludes such writes ([good_notif tgt n] asks the prefix to name
+    the handle's target); this witness shows the exclusion is needed. *)
+Definition wit_handle_ops : list cop :=
+  [OUpdT 0 "t" (Notif 1 (Some (GPath "" "" [("a", [])] [])) None
+                      [Upd (Some (gp_of_names ["b"])) (Some (TInt 1)) 0] [] false)].
+
+Lemma feed_replays_refuted_handle :
+  exists t, assoc "t" (c_targets (crun (new_cache wit_cfg ["t"]) wit_handle_ops)) = Some t /\
+    lookup (t_tree t) ["b"] <> None /\
+    rfind (replay (cfeed_hist (new_cache wit_cfg ["t"]) wit_handle_ops)) "t" ["b"] = None /\
+    rfind (replay (cfeed_hist (new_cache wit_cfg ["t"]) wit_handle_ops)) "" ["b"] <> None.
+Proof. eexists. split; [vm_compute; reflexivity|]. vm_compute. repeat split; discriminate. Qed.
